@@ -314,7 +314,19 @@ func (c *Ctx) c15Accept(serve, loopFn *ssa.Function, memo map[*ssa.Function]int)
 		}
 		cond, neg := flow.Cond(ifi.Cond, true)
 		call, ok := cond.(*ssa.Call)
-		if !ok || !call.Call.IsInvoke() || call.Call.Method.Name() != "Temporary" {
+		if !ok {
+			continue
+		}
+		isTemp := call.Call.IsInvoke() && call.Call.Method.Name() == "Temporary"
+		if h := flow.StaticCallee(call); !isTemp && h != nil && h.Blocks != nil && c.P.IsLibrary(h) {
+			// a package-local predicate over the accept error
+			for i, a := range call.Call.Args {
+				if a == errorResult(accept) && i < len(h.Params) && impliesTemporaryNetError(h, h.Params[i]) {
+					isTemp = true
+				}
+			}
+		}
+		if !isTemp {
 			continue
 		}
 		nTemp++
@@ -425,10 +437,63 @@ func (c *Ctx) c15Report(loopFn *ssa.Function) {
 	if !bad {
 		r.Ok("R4", key, c.pos(read), "no path from the read-error edge back to the read")
 	}
-	// the report
+	// the report (in the loop function's error region, or in a helper the error is handed to there)
+	key = fname(loopFn) + ":error-report"
+	ok, at, why := c.reportOffered(loopFn, errv, func(b *ssa.BasicBlock) bool { return eb[b] }, 0)
+	if at == nil {
+		at = read
+	}
+	r.Check(ok, "R4", key, c.pos(at), "ErrorReporter.Error is offered the read error, guarded only by err!=nil, err!=io.EOF, err!=io.ErrUnexpectedEOF and the ErrorReporter interface test", why)
+}
+
+// reportOffered: within the blocks of fn accepted by inRegion, ErrorReporter.Error is called with a report that
+// carries errv, under no other conditions than err != nil, err != io.EOF, err != io.ErrUnexpectedEOF and the
+// ErrorReporter type test — directly, or in a package-local helper that receives errv there.
+func (c *Ctx) reportOffered(fn *ssa.Function, errv ssa.Value, inRegion func(*ssa.BasicBlock) bool, depth int) (bool, ssa.Instruction, string) {
+	// conditions under which the value itself was produced are not conditions on the report
+	before := map[*ssa.If]bool{}
+	if in, ok := errv.(ssa.Instruction); ok {
+		for _, g := range flow.Guards(in) {
+			before[g.If] = true
+		}
+	}
+	guardsOK := func(in ssa.Instruction) (bool, ssa.Instruction, string) {
+		for _, g := range flow.Guards(in) {
+			if before[g.If] {
+				continue
+			}
+			cond, neg := flow.Cond(g.If.Cond, g.Taken)
+			okGuard := false
+			switch x := cond.(type) {
+			case *ssa.BinOp:
+				other := ssa.Value(nil)
+				if x.X == errv {
+					other = x.Y
+				} else if x.Y == errv {
+					other = x.X
+				}
+				if other != nil {
+					if flow.IsNilConst(other) {
+						okGuard = (x.Op == token.NEQ) != neg // err != nil holds
+					} else if gl := loadedGlobal(other); gl != nil && gl.Pkg != nil && gl.Pkg.Pkg.Path() == "io" && (gl.Name() == "EOF" || gl.Name() == "ErrUnexpectedEOF") {
+						okGuard = (x.Op == token.NEQ) != neg
+					}
+				}
+			case *ssa.Extract:
+				// ok of a typeassert to ErrorReporter
+				if ta, isTA := x.Tuple.(*ssa.TypeAssert); isTA && x.Index == 1 && !neg && flow.TypeIs(ta.AssertedType, pkgDiam, "ErrorReporter") {
+					okGuard = true
+				}
+			}
+			if !okGuard {
+				return false, g.If, fmt.Sprintf("the error report is additionally guarded by %s (taken=%v): some undecodable inputs are not reported", short(g.If.Cond.String(), 60), g.Taken)
+			}
+		}
+		return true, nil, ""
+	}
 	var report *ssa.Call
-	for _, b := range loopFn.Blocks {
-		if !eb[b] {
+	for _, b := range fn.Blocks {
+		if !inRegion(b) {
 			continue
 		}
 		for _, in := range b.Instrs {
@@ -437,61 +502,58 @@ func (c *Ctx) c15Report(loopFn *ssa.Function) {
 			}
 		}
 	}
-	key = fname(loopFn) + ":error-report"
-	if report == nil {
-		r.Fail("R4", key, c.pos(read), "no ErrorReporter.Error call on the read-error edge: undecodable input is dropped silently")
-		return
-	}
-	// guards whitelist
-	for _, g := range flow.Guards(report) {
-		cond, neg := flow.Cond(g.If.Cond, g.Taken)
-		okGuard := false
-		switch x := cond.(type) {
-		case *ssa.BinOp:
-			other := ssa.Value(nil)
-			if x.X == errv {
-				other = x.Y
-			} else if x.Y == errv {
-				other = x.X
-			}
-			if other != nil {
-				if flow.IsNilConst(other) {
-					okGuard = (x.Op == token.NEQ) != neg // err != nil holds
-				} else if gl := loadedGlobal(other); gl != nil && gl.Pkg != nil && gl.Pkg.Pkg.Path() == "io" && (gl.Name() == "EOF" || gl.Name() == "ErrUnexpectedEOF") {
-					okGuard = (x.Op == token.NEQ) != neg
-				}
-			}
-		case *ssa.Extract:
-			// ok of a typeassert to ErrorReporter
-			if ta, isTA := x.Tuple.(*ssa.TypeAssert); isTA && x.Index == 1 && !neg && flow.TypeIs(ta.AssertedType, pkgDiam, "ErrorReporter") {
-				okGuard = true
-			}
+	if report != nil {
+		if ok, at, why := guardsOK(report); !ok {
+			return false, at, why
 		}
-		if !okGuard {
-			r.Fail("R4", key, c.pos(g.If), fmt.Sprintf("the error report is additionally guarded by %s (taken=%v): some undecodable inputs are not reported", short(g.If.Cond.String(), 60), g.Taken))
-			return
-		}
-	}
-	// the report carries the error
-	carries := false
-	if len(report.Call.Args) == 1 {
-		if alloc, ok := report.Call.Args[0].(*ssa.Alloc); ok {
-			for _, ref := range flow.Referrers(alloc) {
-				if fa, ok := ref.(*ssa.FieldAddr); ok {
-					for _, fr := range flow.Referrers(fa) {
-						if st, ok := fr.(*ssa.Store); ok && st.Val == errv {
-							carries = true
+		carries := false
+		if len(report.Call.Args) == 1 {
+			if alloc, ok := report.Call.Args[0].(*ssa.Alloc); ok {
+				for _, ref := range flow.Referrers(alloc) {
+					if fa, ok := ref.(*ssa.FieldAddr); ok {
+						for _, fr := range flow.Referrers(fa) {
+							if st, ok := fr.(*ssa.Store); ok && st.Val == errv {
+								carries = true
+							}
 						}
 					}
 				}
 			}
 		}
+		if !carries {
+			return false, report, "the ErrorReport passed to Error does not carry the read error"
+		}
+		return true, report, ""
 	}
-	if !carries {
-		r.Fail("R4", key, c.pos(report), "the ErrorReport passed to Error does not carry the read error")
-		return
+	if depth < 2 {
+		for _, b := range fn.Blocks {
+			if !inRegion(b) {
+				continue
+			}
+			for _, in := range b.Instrs {
+				call, ok := in.(*ssa.Call)
+				if !ok {
+					continue
+				}
+				h := flow.StaticCallee(call)
+				if h == nil || h.Blocks == nil || !c.P.IsLibrary(h) {
+					continue
+				}
+				for i, a := range call.Call.Args {
+					if a != errv || i >= len(h.Params) {
+						continue
+					}
+					if ok, at, why := guardsOK(call); !ok {
+						return false, at, why
+					}
+					if ok, at, why := c.reportOffered(h, h.Params[i], func(*ssa.BasicBlock) bool { return true }, depth+1); ok || at != nil {
+						return ok, at, why
+					}
+				}
+			}
+		}
 	}
-	r.Ok("R4", key, c.pos(report), "ErrorReporter.Error is offered the read error, guarded only by err!=nil, err!=io.EOF, err!=io.ErrUnexpectedEOF and the ErrorReporter interface test")
+	return false, nil, "no ErrorReporter.Error call on the read-error edge: undecodable input is dropped silently"
 }
 
 func loadedGlobal(v ssa.Value) *ssa.Global {
